@@ -20,8 +20,7 @@ Definition field_shape_ok (fi : finfo) (next : option finfo) : bool :=
   && is_nil_b (fi_embptr fi)
   && (if o_group o then has_param fi else true)
   && (if o_omit o then negb (o_inline o) && negb (match t_kind (fi_type fi) with KArray _ => true | _ => false end) else true)
-  && (if o_haslen o then 0 <? o_len o else true)
-  && (if o_inline o then o_haslen o && negb (o_group o) && negb (has_param fi)
+  && (if o_inline o then o_haslen o && (0 <? o_len o) && negb (o_group o) && negb (has_param fi)
                          && match next with
                             | Some nx => positional nx && negb (f_omit nx)
                             | None => false
@@ -57,7 +56,7 @@ Fixpoint groups_shape_ok (fs : list finfo) (since_req : bool) (inrun : nat) (pre
 
 Definition unambiguous (ti : tinfo) : bool :=
   match ti_prefix ti with
-  | Some p => negb (o_omit (fi_opts p)) && is_nil_b (fi_embptr p) && negb (o_haslen (fi_opts p))
+  | Some p => is_nil_b (fi_embptr p) && negb (o_haslen (fi_opts p))
   | None => true
   end
   && negb (is_nil_b (ti_fields ti))
@@ -115,19 +114,22 @@ Definition presentable (cb : callbacks) (ti : tinfo) (sv : sval) : bool :=
   is_nil_b (sv_embnil sv)
   && forallb (fun fi => match lookup_path (fi_index fi) (sv_fields sv) with Some _ => true | None => false end)
              ((match ti_prefix ti with Some p => [p] | None => [] end) ++ fs)
-  && match ti_prefix ti with
-     | Some p => match text_of cb p sv with
-                 | Some s => prefix_shaped s && field_rt cb p sv
-                 | None => false
-                 end
-     | None => match pres with
-               | fi :: _ => match keyed_text cb fi sv with
-                            | c :: _ => negb (c =? underscore) && negb (c =? dollar)
-                            | [] => false
-                            end
-               | [] => false
-               end
-     end
+  && (let first_ok := match pres with
+                      | fi :: _ => match keyed_text cb fi sv with
+                                   | c :: _ => negb (c =? underscore) && negb (c =? dollar)
+                                   | [] => false
+                                   end
+                      | [] => false
+                      end in
+      match ti_prefix ti with
+      | Some p => if present p sv then
+                    match text_of cb p sv with
+                    | Some s => prefix_shaped s && field_rt cb p sv
+                    | None => false
+                    end
+                  else first_ok        (* an omitted optional prefix: the text must not look like it has one *)
+      | None => first_ok
+      end)
   && forallb (fun fi => match text_of cb fi sv with Some s => clean s | None => false end
                         && clean (o_param (fi_opts fi)) && field_rt cb fi sv) pres
   && match rev pres with
@@ -164,3 +166,13 @@ Definition in_class_case (c : list sfield * sval * obs bytes) : bool :=
   | Ok ti => unambiguous ti && presentable std_cb ti sv
   | _ => false
   end.
+
+(* index paths identify fields *)
+Fixpoint nodup_paths (l : list (list nat)) : bool :=
+  match l with [] => true | x :: r => negb (existsb (path_eqb x) r) && nodup_paths r end.
+Definition paths_ok (ti : tinfo) : bool :=
+  nodup_paths (map fi_index ((match ti_prefix ti with Some p => [p] | None => [] end) ++ ti_fields ti)).
+
+(* the field-wise agreement used in the round-trip statements *)
+Definition agree (m e : list (list nat * fval)) : Prop :=
+  Forall2 (fun a b => fst a = fst b /\ fval_eqb (snd a) (snd b) = true) m e.
